@@ -982,7 +982,18 @@ def fam_reuse(rng, n, dist):
         mode, rfc = ALL_METHODS[i % 4]
         b = S.Builder(rng, mode, rfc, type="I", tls=True, resume=(i % 3 != 2), tlsver=("12" if i % 5 else "13"), verify="trusted")
         b.connect(login=(b"u", b"p"))
-        for _ in range(rng.randrange(1, 6)):
+        ntr = rng.randrange(1, 6)
+        cancel_at = rng.randrange(0, ntr) if rng.random() < 0.4 else None
+        for k in range(ntr):
+            if k == cancel_at:
+                # a transfer cancelled by the callback (closed without the graceful shutdown): the ones that follow must
+                # still be offered - and get - the control session
+                big = [bytes([65 + j % 26]) * 8192 for j in range(4)]
+                if rng.random() < 0.5:
+                    b.transfer("D", b"big.bin", payload_segs=big + [b"z" * 200000], cb=[False, False] + [True] * 6, abor=dict(first=426, second=226))
+                else:
+                    b.transfer("U", b"big.bin", chunks=big * 3, cb=[False, False] + [True] * 6, abor=dict(first=426, second=226))
+                dist.add("reuse:cancelled-transfer-in-the-middle")
             add_transfer(b, rng, dist, kind=rng.choice(["D", "U", "F"]))
         ending = rng.choice(["quit", "421", "quit", "421-then-connect", "connect-over"])
         if ending == "421":
@@ -1062,6 +1073,8 @@ def oracle_reuse(scn, res):
         k = 0
         for d in log["data"]:
             if d.get("tls") is not True:
+                if d.get("arrived"):
+                    k += 1          # an attempted data handshake counts: under TLS 1.3 it has used up the ticket
                 continue
             reused = d.get("reused")
             if c["resume"] and not reused:
